@@ -898,7 +898,10 @@ Definition enact (b:behavior) (r:rt) (c:context) : res (bresult * behavior * rt 
   end.
 
 (* ------------------------------------------------------------------ frame::next(runtime)  (frame.h:256) *)
-Inductive fres := FDone | FOk.
+Inductive fres := FDone | FOk | FRestarted.
+(* frame.h next(): a restarted scope without instructions cannot execute anything: control goes back to execute_do *)
+Definition top_code_empty (c:context) : bool :=
+  match c_frames c with f :: _ => match f_code f with [] => true | _ => false end | [] => false end.
 Definition at_end (f:frame) : bool := Nat.eqb (f_pos f) (S (length (f_code f))).
 
 Fixpoint frame_next (fuel:nat) (r:rt) (c:context) : res (fres * rt * context) :=
@@ -917,7 +920,9 @@ Fixpoint frame_next (fuel:nat) (r:rt) (c:context) : res (fres * rt * context) :=
           let c3 := upd_top c2 (fun f => set_exit f (Some b')) in
           match br with
           | BrSeekEnd => Ok (FDone, r2, upd_top c3 (fun f => set_pos f (S (length (f_code f)))))
-          | BrSeekStart => frame_next fuel' r2 (clear_values (upd_top c3 (fun f => set_pos f 0)))
+          | BrSeekStart =>
+              let c4 := clear_values (upd_top c3 (fun f => set_pos f 0)) in
+              if top_code_empty c4 then Ok (FRestarted, r2, c4) else frame_next fuel' r2 c4
           | BrExchange code' => frame_next fuel' r2 (upd_top c3 (fun f => set_pos (set_code f code') 0))
           | BrOk | BrFail => Ok (res0, r2, c3) end)
       else Ok (res0, r, c1)
@@ -979,6 +984,17 @@ Definition do_iter (r:rt) : res iter :=
             bindr (on_error (upd_cur r1 c1)) (fun '(recovered, r2) =>
               if recovered then Ok (Continue r2) else Ok (Return RRuntimeError r2))
           else
+          match fr with
+          | FRestarted =>
+              (* an empty loop body went round once: the deadline is tested, the round counts against the slice *)
+              let '(expired, r2) :=
+                if Z.eqb (r_max_runtime r1) 0 then (false, r1)
+                else let (t, r') := now r1 in (Z.ltb (r_max_runtime r1 + r_run_ts r1) t, r') in
+              if expired then
+                Ok (Return RRuntimeError
+                      (set_msgs (set_errflag (set_exit_req (logmsg (upd_cur r2 c1) d_MaximumRuntimeReached) true) false) []))
+              else Ok (Executed (upd_cur r2 c1))
+          | _ =>
           match fr, Nat.eqb (length (c_frames c1)) frame_count with
           | FDone, true =>
               (* frame completion: the scope hands exactly one value to its caller *)
@@ -1006,7 +1022,7 @@ Definition do_iter (r:rt) : res iter :=
                   let r4 := upd_cur r3 c5 in
                   if negb (r_err r4) then Ok (Executed (set_msgs r4 []))
                   else bindr (on_error r4) (fun '(recovered, r5) =>
-                         if recovered then Ok (Executed r5) else Ok (Return RRuntimeError r5))) end end)
+                         if recovered then Ok (Executed r5) else Ok (Return RRuntimeError r5))) end end end)
       | _ => Ok (Return ROk r) end end end.
 
 Fixpoint execute_do (fuel:nat) (r:rt) (exit_after:nat) : res (rresult * rt) :=
